@@ -77,8 +77,9 @@ type CScenario struct {
 	Fair         bool     `json:"feeder_fair"` // producer pauses 1ms after each Accept so the feeder reaches its blocking point
 	Gens         []CGen   `json:"gens"`
 	Faults       []CFault `json:"faults"`
-	Unreadable   []int    `json:"unreadable_chunks"` // chunk numbers whose file (if any) becomes unreadable before the last generation
-	FinalHealthy bool     `json:"final_healthy_gen"` // append a generation with a healthy consumer and no accepts
+	Unreadable   []int    `json:"unreadable_chunks"`      // chunk numbers whose file (if any) becomes unreadable before the last generation
+	PlantEmpty   []int    `json:"plant_empty_before_gen"` // generations before which a zero-length file with a valid chunk name appears in the queue
+	FinalHealthy bool     `json:"final_healthy_gen"`      // append a generation with a healthy consumer and no accepts
 }
 
 func (w *worldC) Decode(raw json.RawMessage) (any, error) {
@@ -194,6 +195,9 @@ func (w *worldC) Generate(r *simrt.Rand, profile, tier string) any {
 			if r.Bool(20) {
 				s.Unreadable = append(s.Unreadable, r.Intn(total+1))
 			}
+			if r.Bool(25) {
+				s.PlantEmpty = append(s.PlantEmpty, 1+r.Intn(ngen))
+			}
 		}
 	}
 	return s
@@ -239,6 +243,11 @@ func (w *worldC) Shrink(sc any) []any {
 	if len(s.Unreadable) > 0 {
 		c := clone()
 		c.Unreadable = nil
+		out = append(out, c)
+	}
+	if len(s.PlantEmpty) > 0 {
+		c := clone()
+		c.PlantEmpty = nil
 		out = append(out, c)
 	}
 	for g, gen := range s.Gens {
@@ -322,6 +331,7 @@ type cRun struct {
 	dropped      []int // per generation dropped_chunks_total
 	queueDir     string
 	curMF        *promreg.MetricFactory
+	planted      map[string]bool
 	startFiles   map[string]bool
 	prevTotal    int64
 	destroyTotal int64
@@ -360,7 +370,7 @@ func errnoOf(s string) syscall.Errno {
 func (w *worldC) Run(t *testing.T, profile string, sc any, cfg simrt.Config) *Outcome {
 	s := sc.(*CScenario)
 	out := &Outcome{}
-	r := &cRun{s: s, profile: profile, out: out, chunks: map[string]*cChunk{}, killedGen: -1}
+	r := &cRun{s: s, profile: profile, out: out, chunks: map[string]*cChunk{}, killedGen: -1, planted: map[string]bool{}}
 	logger.SetOutput(&r.logbuf)
 	logger.SetLogLevel(logger.InfoLevel)
 	cfg.MaxSimTime = 400 * time.Hour
@@ -506,6 +516,16 @@ func (r *cRun) drive() {
 						}
 					}
 				}
+			}
+		}
+		for _, pg := range s.PlantEmpty {
+			if pg == g && r.queueDir != "" {
+				// what a crash of an older, non-atomic writer (or an operator's mistake) leaves behind: must be treated as
+				// corrupt, never forwarded, and must not block the chunks around it
+				name := fmt.Sprintf("%019d-%08d.ff", time.Now().UnixNano()-int64(25*time.Millisecond), 999000+g)
+				r.fs.PutFile(r.queueDir+"/"+name, nil)
+				r.planted[name] = true
+				r.out.fault("planted_zero_length_file", 1)
 			}
 		}
 		r.runGen(g, &gens[g], g == len(gens)-1 && s.FinalHealthy)
@@ -716,6 +736,10 @@ func (r *cRun) received(g int, chunk base.LogChunk, lastID *string) {
 	r.out.Obligations++
 	cc := r.chunks[chunk.ID]
 	if cc == nil {
+		if r.planted[chunk.ID] {
+			r.note("C04", "corrupt-forwarded", "consumer received the zero-length file %s as a chunk (%d bytes)", chunk.ID, len(chunk.Data))
+			return
+		}
 		r.note("C03", "phantom", "consumer received unknown chunk %s", chunk.ID)
 		return
 	}
